@@ -7,13 +7,17 @@ from shapes import shapes, prod, fmt
 
 ID = 'C15'
 LEVEL = 'proof'
-READY = False
 RULE = ('per checked operation the full small-scope argument space INCLUDING the invalid part: reshape targets with entries -2..4 (length 1..3), '
         'transpose axes from [-dim-1, dim] incl. duplicates, moveaxis/swapaxes/expand_dims axes in [-dim-2, dim+1], broadcast_to / add / concatenate / '
         'matmul operand-shape pairs (compatible and not), pad width lists of every length 0..2*dim+1, tile/repeat/roll/sum arguments with bad axes; '
         'pipelines of depth 2-3 whose first or second stage fails; NDEBUG build and ASan+UBSan+assert build. non-trivial = NumPy raises, or the result differs from the source')
 EXHAUSTIVE = {'quick': True, 'thorough': True}
-ANCHORS = {}
+ANCHORS = {'NmVerif.Checked.shapeReshape': 'index::shape_reshape / count_negative_reshape (index/reshape.hpp)', 'NmVerif.Checked.normalizeAxis': 'index::normalize_axis',
+           'NmVerif.Checked.Pipe.denote': 'has_value checks of the view constructors + eval (nmtools_maybe plumbing)'}
+MANIFEST = dict(
+    text='Proof + exploration: Lean theorems that reshape returns Nothing exactly on invalid targets (more than one -1, zero/negative extent, mismatching or non-dividing element count) and that an accepted reshape has positive extents and the source element count; normalize_axis accepts exactly [-ndim, ndim); an empty optional propagates through pipelines of any depth. Every checked operation (reshape, transpose, moveaxis, swapaxes, expand_dims, broadcast_to, add, concatenate, matmul, pad, tile, repeat, roll, sum, depth-2/3 pipelines) is run over its full small-scope argument space INCLUDING the invalid part against NumPy raise/no-raise, in an NDEBUG build and an assert+ASan+UBSan build; 7 classes of unchecked arguments are known findings.',
+    note='Lean kernel + propext/Classical.choice/Quot.sound (+ Mathlib.Tactic.Ring in the proof file). Validity of the other operations is decided by the NumPy oracle, the value part by the models of C03/C04/C06; the process-level outcome (abort, out-of-range exception) is observed, not modelled.',
+    technique='Lean 4 iff-theorems for the checked argument predicates + Option-monad propagation by induction on a pipeline AST; differential run against NumPy over valid and invalid arguments under sanitizers')
 ASSUMPTIONS = ['NumPy 2.x raise / no-raise decision is the reference for validity (the property text names it)']
 PARTIAL = []
 
@@ -109,8 +113,16 @@ KNOWN_PREDICATES = {
 _san_budget = {}
 
 
+MODELLED = {'reshape': 'v_reshape', 'pipe_reshape_transpose': 'v_pipe_reshape_transpose'}
+
+
 def both(req, oracle, tags, nontrivial=True, model=False, dom=True):
-    c0 = Case(req, 'h_c15', oracle=oracle, model=model, dom=dom, nontrivial=nontrivial,
+    op = req.split(' ')[0]
+    mreq = None
+    if op in MODELLED and ' to=[]' not in req:
+        model = True
+        mreq = MODELLED[op] + req[len(op):]
+    c0 = Case(req, 'h_c15', oracle=oracle, model=model, dom=dom, nontrivial=nontrivial, mreq=mreq,
               tags=list(tags) + ['h_c15', 'expect-nothing' if oracle == 'nothing' else 'expect-value'])
     yield c0
     # sanitizer + assert build: every case outside the known-defect classes; inside them a bounded sample per class
@@ -121,7 +133,7 @@ def both(req, oracle, tags, nontrivial=True, model=False, dom=True):
         if n >= 15:
             return
         _san_budget[cls[0]] = n + 1
-    yield Case(req, 'h_c15_san', oracle=oracle, model=model, dom=dom, nontrivial=nontrivial,
+    yield Case(req, 'h_c15_san', oracle=oracle, model=model, dom=dom, nontrivial=nontrivial, mreq=mreq,
                tags=list(tags) + ['h_c15_san', 'expect-nothing' if oracle == 'nothing' else 'expect-value'])
 
 
